@@ -538,14 +538,33 @@ func TestC04(t *testing.T) {
 	for _, f := range c04Faults {
 		m = append(m, "fault:"+f.name)
 	}
-	m = append(m, "multi_fault")
+	m = append(m, "multi_fault", "keyless_server")
 	rec.Mandatory(m...)
 	rapid.Check(t, func(t *rapid.T) {
 		record, key, classes, desc, cl := c04Build(t)
 		keys := []*hello.Key{key}
 		rp := map[string]any{"keys": keysReplay(keys), "client_stream": hx(record), "expect": "abort", "want_error": strings.Join(classes, "|"), "want_alert": alertClass[classes[0]].desc, "faults": desc}
 		tr := wire.New(record, io.EOF)
-		conn, cerr := newConn(context.Background(), tr, echKeys(keys...))
+		useKeys := echKeys(keys...)
+		keyless := true
+		for _, d := range desc {
+			keyless = keyless && (strings.HasPrefix(d, "ech_type_unknown") || strings.HasPrefix(d, "outer_has_outer_extensions"))
+		}
+		if keyless {
+			// these two rules do not depend on the server holding keys (the statement names keys
+			// only for the 'inner' type): a Conn made without keys enforces them too
+			switch rapid.IntRange(0, 2).Draw(t, "keyless_server") {
+			case 1:
+				useKeys = nil
+				rp["keys"] = []string{}
+				cl = append(cl, "keyless_server")
+			case 2:
+				useKeys = []ech.Key{}
+				rp["keys"] = []string{}
+				cl = append(cl, "keyless_server")
+			}
+		}
+		conn, cerr := newConn(context.Background(), tr, useKeys)
 		got := checkAbortClasses(t, "C04", rp, tr, conn, cerr, classes)
 		cl = append(cl, "alert:"+got)
 		rec.Case(strings.Join(desc, "+"), true, cl, func() any {
